@@ -72,7 +72,7 @@ fn after(r: &mut Ref, who: usize, frame: f64, pend: [usize; 2], pulls: usize, ta
 /// Run one history (bit i of `hist`: 0 = A.next(), 1 = B.next()) on a fresh fork.
 /// Steps that would push the lead beyond the capacity are not part of the
 /// property's domain: the history ends there. Returns (steps run, final positions).
-fn run_history(cap: usize, start: usize, mode: Mode, hist: u32, len: usize) -> Result<(usize, [usize; 2]), (String, String)> {
+fn run_history(cap: usize, start: usize, mode: Mode, hist: u128, len: usize) -> Result<(usize, [usize; 2]), (String, String)> {
     let (src, c) = source();
     let data = vec![-1.0f64; cap];
     let ring = Bounded::from_raw_parts(start, 0, data);
@@ -144,11 +144,11 @@ fn run_history(cap: usize, start: usize, mode: Mode, hist: u32, len: usize) -> R
     Ok((i, r.pos))
 }
 
-fn show(hist: u32, len: usize) -> String {
+fn show(hist: u128, len: usize) -> String {
     (0..len).map(|i| if (hist >> i) & 1 == 0 { 'A' } else { 'B' }).collect()
 }
 
-fn case_json(cap: usize, start: usize, mode: Mode, hist: u32, len: usize) -> Value {
+fn case_json(cap: usize, start: usize, mode: Mode, hist: u128, len: usize) -> Value {
     json!({"sys":"fork","cap":cap,"start":start,"mode":mode.name(),"history":show(hist,len)})
 }
 
@@ -173,7 +173,7 @@ fn ctor_case(cap: usize, start: usize, len: usize) -> Bad {
 #[derive(Clone, Debug)]
 struct St {
     key: (i32, u8), // (posA - posB, min(posA,posB) mod capacity)
-    witness: (u32, u8),
+    witness: (u128, u8),
     bad: bool,
 }
 impl PartialEq for St {
@@ -203,7 +203,7 @@ impl Model for ForkModel {
         vec![St { key: (0, 0), witness: (0, 0), bad: false }]
     }
     fn actions(&self, s: &St, out: &mut Vec<u8>) {
-        if s.bad || s.witness.1 >= 30 {
+        if s.bad || s.witness.1 >= 126 {
             return;
         }
         for who in 0..2u8 {
@@ -215,7 +215,7 @@ impl Model for ForkModel {
     }
     fn next_state(&self, s: &St, who: u8) -> Option<St> {
         let (h, l) = s.witness;
-        let hist = h | ((who as u32) << l);
+        let hist = h | ((who as u128) << l);
         let len = l as usize + 1;
         let case = case_json(self.cap, 0, self.mode, hist, len);
         guard::enter(&case.to_string());
@@ -242,7 +242,7 @@ fn main() {
             ctx.finish_replay(ctor_case(v["cap"].as_u64().unwrap_or(1) as usize, v["start"].as_u64().unwrap_or(0) as usize, v["len"].as_u64().unwrap_or(0) as usize).map(|e| e.1));
         }
         let hs = v["history"].as_str().unwrap_or("");
-        let hist = hs.chars().enumerate().fold(0u32, |a, (i, c)| a | (((c == 'B') as u32) << i));
+        let hist = hs.chars().enumerate().fold(0u128, |a, (i, c)| a | (((c == 'B') as u128) << i));
         let mode = Mode::parse(v["mode"].as_str().unwrap_or("")).unwrap_or(Mode::RefHold);
         let r = catch(|| run_history(v["cap"].as_u64().unwrap_or(1) as usize, v["start"].as_u64().unwrap_or(0) as usize, mode, hist, hs.len()));
         ctx.finish_replay(match r {
@@ -254,7 +254,7 @@ fn main() {
     let len = ctx.tier.pick(16, 20);
     let maxcap: usize = ctx.tier.pick(4, 6);
     ctx.rule(&format!("unmerged: every A/B history of length {len} (quick 16 / thorough 20) for capacities 1..=4 (thorough 1..=6), each replayed on a fresh fork over an index-valued instrumented source; a step that would put one branch more than `capacity` ahead ends the history (outside the property's domain); modes: by_ref held, by_ref re-split before every step, by_rc, by_ref for k steps then by_rc for every k; every ring start offset; after every step: the branch's k-th frame is k, source pulls == max(posA,posB), pending_frames == lag; non-trivial = a history in which both branches were pulled, distinct by (capacity, start, mode, history)"));
-    ctx.rule("merged: stateright BFS to fixpoint on (lead, min(posA,posB) mod capacity), each transition executed on a real fork rebuilt by replaying the BFS witness history; constructor: fork() accepts every empty ring buffer (any start offset) of capacities 1..=4");
+    ctx.rule("merged: stateright BFS to fixpoint on (lead, min(posA,posB) mod capacity), also for the larger capacities 8, 16, 32, each transition executed on a real fork rebuilt by replaying the BFS witness history; constructor: fork() accepts every empty ring buffer (any start offset) of capacities 1..=4");
 
     // constructor
     let mut evals = 0u64;
@@ -290,7 +290,7 @@ fn main() {
         let mut fps = Vec::new();
         let mut h = 0u64;
         let mut st = 0u64;
-        for hist in 0..(1u32 << len) {
+        for hist in 0..(1u128 << len) {
             if hist & 0xfff == 0 {
                 guard::enter(&case_json(cap, start, mode, hist, len).to_string());
             }
@@ -321,6 +321,12 @@ fn main() {
     let mut inst = Vec::new();
     for cap in 1..=maxcap {
         for mode in [Mode::RefHold, Mode::RefResplit, Mode::Rc] {
+            inst.push((cap, mode));
+        }
+    }
+    // scale probes (merged run only): larger capacities, fixpoint of (lead, ring phase)
+    for cap in [8usize, 16, 32] {
+        for mode in [Mode::RefHold, Mode::Rc] {
             inst.push((cap, mode));
         }
     }
